@@ -209,6 +209,11 @@ func c01WPrograms(tier string) []*wn {
 	add(wProg(wset("t", wi(0)), W("forr", "i", wb("&", a, wi(3)), wb("+", wb("&", a, wi(3)), wb("&", b, wi(3))), wdo(wset("t", wb("+", t, i)))), wprint(t)))
 	add(wProg(wset("t", wi(0)), W("times", "", wb("&", a, wi(3)), wdo(wset("t", wb("+", t, wi(2))))), t))
 	add(wProg(wset("x", wb("&", a, wi(7))), W("while", "", wb(">", x, wi(0)), wdo(wprint(x), wset("x", wb("-", x, wi(2))))), x))
+	// condition-style loops with every way out
+	add(wProg(wset("x", wi(0)), W("while", "", wb("<", x, wi(6)), wdo(W("inc", "x"), wif(wb("==", x, wb("&", a, wi(7))), wdo(W("break", ""))), wprint(x))), wprint(ws("after"), x)))
+	add(wProg(wset("x", wi(0)), W("while", "", wb("<", x, wi(6)), wdo(W("inc", "x"), wif(wb("==", x, wb("&", a, wi(7))), wdo(W("continue", ""))), wprint(x))), x))
+	add(wProg(wfn("w", []string{"v"}, wdo(wset("y", wi(0)), W("while", "", wb("<", wv("y"), wi(5)), wdo(W("inc", "y"), wif(wb("==", wv("y"), wv("v")), wdo(W("return", "", wb("*", wv("y"), wi(10))))), wif(wb("==", wv("y"), wb("+", wv("v"), wi(2))), wdo(W("break", ""))))), wi(-1))), wprint(wcall(wv("w"), wb("&", a, wi(7))))))
+	add(wProg(wset("x", wi(0)), W("while", "", wb("<", x, wi(3)), wdo(W("inc", "x"), W("fori", "i", wi(3), wdo(wif(wb("==", i, wb("&", a, wi(3))), wdo(W("break", ""))), wprint(x, i))), wif(wb("==", x, wb("&", b, wi(3))), wdo(W("break", ""))))), x))
 	for _, exit := range []string{"break", "continue"} {
 		add(wProg(wset("t", wi(0)), W("fori", "i", wi(4), wdo(wif(wb("==", i, wb("&", a, wi(3))), wdo(W(exit, ""))), wset("t", wb("+", t, wi(1))), wprint(i))), t))
 		add(wProg(W("fori", "i", wi(3), wdo(W("fori", "j", wi(3), wdo(wif(wb("==", wv("j"), wb("&", b, wi(3))), wdo(W(exit, ""))), wprint(i, wv("j"))))))))
